@@ -193,15 +193,28 @@ def statements():
         o.append("Definition hos%s_sym_stmt : Prop :=\n  forall s0 s1 s2 e : R, e < mises_1 s0 s1 s2 -> is_sym 3 (out (hos%s_snd_1 s0 s1 s2 e))." % (A, A))
         o.append("Definition hos%s_hom_stmt : Prop :=\n  forall s0 s1 s2 e t : R, 0 < t -> e < mises_1 s0 s1 s2 -> e < mises_1 (t * s0) (t * s1) (t * s2) -> 0 < misesQ s0 s1 s2 ->\n"
                  "    nthR (out (hos%s_val_1 (t * s0) (t * s1) (t * s2) e)) 0 = t * nthR (out (hos%s_val_1 s0 s1 s2 e)) 0." % (A, A, A))
-        o.append("(* Barlat with the deviatoric projector as both transformations: same value, normal (entries 0..3), second derivative (0..12) *)\n"
-                 "Definition bar%s_hosford_stmt : Prop :=\n  forall s0 s1 s2 e : R, e < mises_1 s0 s1 s2 -> 0 < misesQ s0 s1 s2 ->\n"
-                 "    all_upto 1 (fun k => nthR (out (bar%s_val_1 s0 s1 s2 e)) k = nthR (out (hos%s_val_1 s0 s1 s2 e)) k) /\\\n"
-                 "    all_upto 4 (fun k => nthR (out (bar%s_nrm_1 s0 s1 s2 e)) k = nthR (out (hos%s_nrm_1 s0 s1 s2 e)) k) /\\\n"
-                 "    all_upto 13 (fun k => nthR (out (bar%s_snd_1 s0 s1 s2 e)) k = nthR (out (hos%s_snd_1 s0 s1 s2 e)) k)." % (A, A, A, A, A, A, A))
         if a == 2:
             o.append("Definition hos2_mises_stmt : Prop :=\n  forall s0 s1 s2 e : R, e < mises_1 s0 s1 s2 -> 0 < misesQ s0 s1 s2 ->\n"
                      "    nthR (out (hos2_val_1 s0 s1 s2 e)) 0 = mises_1 s0 s1 s2.")
         o.append("")
+    X = "u0 u1 u2 w0 w1 w2"
+    pl = " ".join("(nthR p %d)" % i for i in range(6))
+    o.append("(* ---- Barlat: Phi(vp1, vp2, seq) = barS<a>, output layout [Phi; dPhi/du (3); dPhi/dw (3); d2/dudu (00 11 22 01 02 12); d2/dwdw (6); d2/dudw (3x3)] *)")
+    o.append("Definition bar_sidx (i j : nat) : nat := if Nat.eqb i j then i else (Nat.min i j + Nat.max i j + 2)%nat.")
+    o.append("Definition bar_hidx (k l : nat) : nat :=\n  if Nat.ltb k 3 then (if Nat.ltb l 3 then 7 + bar_sidx k l else 19 + 3 * k + (l - 3))%nat\n"
+             "  else (if Nat.ltb l 3 then 19 + 3 * l + (k - 3) else 13 + bar_sidx (k - 3) (l - 3))%nat.")
+    for a in (6,):
+        A = str(a)
+        o.append("Definition barS%s_value_stmt : Prop :=\n  forall %s q : R, 0 < q -> 0 < barT %s %s -> nthR (barS%s %s q) 0 = barPhi %s (1 / %s) %s." % (A, X, A, X, A, X, A, A, X))
+        o.append("Definition barS%s_noq_stmt : Prop :=\n  forall %s q : R, 0 < q -> 0 < barT %s %s -> is_derive (fun x => nthR (barS%s %s x) 0) q 0." % (A, X, A, X, A, X))
+        o.append("Definition barS%s_grad_stmt : Prop :=\n  forall %s q : R, 0 < q -> 0 < barT %s %s ->\n"
+                 "    all_upto 6 (fun l => is_derive (fun x => nthR ((fun p => barS%s %s q) (upd [%s] l x)) 0) (nthR [%s] l) (nthR (barS%s %s q) (1 + l)))."
+                 % (A, X, A, X, A, pl, X.replace(" ", "; "), X.replace(" ", "; "), A, X))
+        o.append("Definition barS%s_hess_stmt : Prop :=\n  forall %s q : R, 0 < q -> 0 < barT %s %s ->\n"
+                 "    all_upto 6 (fun k => all_upto 6 (fun l =>\n      is_derive (fun x => nthR ((fun p => barS%s %s q) (upd [%s] l x)) (1 + k)) (nthR [%s] l) (nthR (barS%s %s q) (bar_hidx k l))))."
+                 % (A, X, A, X, A, pl, X.replace(" ", "; "), X.replace(" ", "; "), A, X))
+        o.append("Definition barS%s_hosford_stmt : Prop :=\n  forall u0 u1 u2 q : R, 0 < q -> 0 < hosT %s u0 u1 u2 ->\n"
+                 "    nthR (barS%s u0 u1 u2 u0 u1 u2 q) 0 = hosPsi %s (1 / %s) u0 u1 u2." % (A, A, A, A, A))
     open(os.path.join(COQ, "C22EigStatements.v"), "w").write("\n".join(o) + "\n")
 
 
@@ -239,45 +252,98 @@ def asmcuts():
 asmcuts()
 
 
-BARID = r'''(* C22 -- Barlat 2004 with both linear transformations = the deviatoric projector (makeBarlatLinearTransformation(1,..,1)) is
-   Hosford 1972: on a diagonal stress the three public Barlat functions return, above the threshold, the same value, normal and
-   second derivative as the three public Hosford functions (traces of both, C22eig_gen.v), exponent a = @A@.
-   Written by mkeig.py from a template, committed. *)
-From Coq Require Import Reals List Lra.
-From Coquelicot Require Import Coquelicot.
-From VLib Require Import RealExtra.
-From C22 Require Import C22InvSpec C22InvTac C22InvCrit C22EigSpec C22EigTac C22eig_gen C22EigStatements C22Eig_hos@A@.
-Import ListNotations.
-Local Open Scope R_scope.
-
-Lemma bar@A@_val_at s0 s1 s2 e : e < mises_1 s0 s1 s2 -> bar@A@_val_1 s0 s1 s2 e = Some (bar@A@_val_leaf_1 s0 s1 s2).
-Proof. intro H1. tree_leaf ltac:(unfold bar@A@_val_1, bar@A@_val_leaf_1) ltac:(unfold mises_1 in H1) H1. Qed.
-Lemma bar@A@_nrm_at s0 s1 s2 e : e < mises_1 s0 s1 s2 -> bar@A@_nrm_1 s0 s1 s2 e = Some (bar@A@_nrm_leaf_1 s0 s1 s2).
-Proof. intro H1. tree_leaf ltac:(unfold bar@A@_nrm_1, bar@A@_nrm_leaf_1) ltac:(unfold mises_1 in H1) H1. Qed.
-Lemma bar@A@_snd_at s0 s1 s2 e : e < mises_1 s0 s1 s2 -> bar@A@_snd_1 s0 s1 s2 e = Some (bar@A@_snd_leaf_1 s0 s1 s2).
-Proof. intro H1. tree_leaf ltac:(unfold bar@A@_snd_1, bar@A@_snd_leaf_1) ltac:(unfold mises_1 in H1) H1. Qed.
-
-Lemma bar@A@_hosford_ok : bar@A@_hosford_stmt.
-Proof.
-  unfold bar@A@_hosford_stmt. intros s0 s1 s2 e H1 HQ. pose proof (Q_pos_T@A@ _ _ _ HQ) as HT.
-  rewrite (bar@A@_val_at _ _ _ e H1), (bar@A@_nrm_at _ _ _ e H1), (bar@A@_snd_at _ _ _ e H1).
-  rewrite (hos@A@_val_at _ _ _ e H1), (hos@A@_nrm_at _ _ _ e H1), (hos@A@_snd_at _ _ _ e H1).
-  unfold out. cbv [all_upto]. side_split;
-  unfold bar@A@_val_leaf_1, bar@A@_nrm_leaf_1, bar@A@_snd_leaf_1, hos@A@_val_leaf_1, hos@A@_nrm_leaf_1, hos@A@_snd_leaf_1;
-  lazy beta delta [nthR nth] iota zeta; hos s0 s1 s2 HQ HT.
-Qed.
-'''
-
-
-def barid(a):
+# ------------------------------------------------------------------ Barlat: Phi(vp1, vp2, seq) and its derivatives
+def barS(a):
     A = str(a)
-    open(os.path.join(COQ, "C22Eig_barid%s.v" % A), "w").write(BARID.replace("@A@", A))
-    q = ["(* C22 -- Barlat 2004 with both transformations = deviatoric projector equals Hosford 1972 (a = %s, diagonal stress): property theorem *)" % A,
+    X = ["u0", "u1", "u2", "w0", "w1", "w2"]
+
+    def xs(j, x):
+        v = list(X)
+        v[j] = x
+        return " ".join(v)
+
+    def sidx(i, j):
+        return i if i == j else {(0, 1): 3, (0, 2): 4, (1, 2): 5}[(min(i, j), max(i, j))]
+
+    def hidx(k, l):
+        if k < 3 and l < 3:
+            return 7 + sidx(k, l)
+        if k >= 3 and l >= 3:
+            return 13 + sidx(k - 3, l - 3)
+        if k < 3:
+            return 19 + 3 * k + (l - 3)
+        return 19 + 3 * l + (k - 3)
+    allx = " ".join(X)
+    o = ["(* C22 -- Barlat 2004: computeBarlatStressSecondDerivative(vp1, vp2, seq, a), a = %s, all symbolic (trace barS%s of C22eig_gen.v):" % (A, A),
+         "   Phi is the documented (sum_ij |u_i - w_j|^a / 4)^(1/a), does not depend on the normalising stress seq, the returned first",
+         "   derivatives are its gradient with respect to the six eigenvalues and the returned second derivatives the Jacobian of that",
+         "   gradient; with u = w it is Hosford's psi.  Written by mkeig.py, committed. *)",
          "From Coq Require Import Reals List Lra.\nFrom Coquelicot Require Import Coquelicot.\nFrom VLib Require Import RealExtra.",
-         "From C22 Require Import C22InvSpec C22EigSpec C22eig_gen C22EigStatements C22Eig_barid%s.\nImport ListNotations.\nLocal Open Scope R_scope.\n" % A,
-         "Theorem C22_barlat%s_projector_is_hosford : bar%s_hosford_stmt.\nProof. exact bar%s_hosford_ok. Qed.\nPrint Assumptions C22_barlat%s_projector_is_hosford." % (A, A, A, A)]
-    open(os.path.join(COQ, "Properties_C22eig_barid%s.v" % A), "w").write("\n".join(q) + "\n")
+         "From C22 Require Import C22InvSpec C22InvTac C22InvCrit C22EigSpec C22EigTac C22eig_gen C22EigStatements.\nImport ListNotations.\nLocal Open Scope R_scope.\n",
+         "Ltac bar := fun u0 u1 u2 w0 w1 w2 q Hq HT =>\n  abs_even;\n  pow_core %s%%nat (1 / %s) 4 q Hq (barT %s u0 u1 u2 w0 w1 w2) (barS %s u0 u1 u2 w0 w1 w2) ltac:(unfold barT)\n"
+         "           ltac:(unfold barT, barS, barM in *) HT.\n" % (A, A, A, A)]
+    o.append("Lemma barS%s_val_eq %s q : 0 < q -> 0 < barT %s %s -> nthR (barS%s %s q) 0 = barPhi %s (1 / %s) %s.\n"
+             "Proof. intros Hq HT. unfold barS%s, barPhi. lazy beta delta [nthR nth] iota zeta. bar u0 u1 u2 w0 w1 w2 q Hq HT. Qed."
+             % (A, allx, A, allx, A, allx, A, A, allx, A))
+    for k in range(6):
+        o.append("Lemma barS%s_grad_eq_%d %s q : 0 < q -> 0 < barT %s %s -> nthR (barS%s %s q) %d = barG %s (1 / %s) %d %s.\n"
+                 "Proof. intros Hq HT. unfold barS%s, barG, barPhi. lazy beta delta [nthR nth] iota zeta. bar u0 u1 u2 w0 w1 w2 q Hq HT. Qed."
+                 % (A, k, allx, A, allx, A, allx, 1 + k, A, A, k, allx, A))
+        o.append("Lemma barS%s_specgrad_%d %s : 0 < barT %s %s ->\n  is_derive (fun x => barPhi %s (1 / %s) %s) %s (barG %s (1 / %s) %d %s).\n"
+                 "Proof.\n  intro HT. unfold barG, barPhi, barM, Rpower. set (T := barT %s %s) in *. unfold barT, barS. simpl Nat.sub.\n"
+                 "  auto_derive; [ eapply Rlt_le_trans; [ exact HT | right; unfold T, barT, barS; field ] | ].\n"
+                 "  canon_ln_u T ltac:(unfold T, barT, barS). generalize (exp (1 / %s * ln T)); intro Y. unfold T, barT, barS in *. field. lra.\nQed."
+                 % (A, k, allx, A, allx, A, A, xs(k, "x"), X[k], A, A, k, allx, A, allx, A))
+    for k in range(6):
+        for l in range(6):
+            o.append("Lemma barS%s_spechess_%d_%d %s q : 0 < q -> 0 < barT %s %s ->\n  is_derive (fun x => barG %s (1 / %s) %d %s) %s (nthR (barS%s %s q) %d).\n"
+                     "Proof.\n  intros Hq HT. set (rhs := nthR (barS%s %s q) %d).\n"
+                     "  unfold barG, barPhi, barM, barT, barS, Rpower. simpl Nat.sub.\n"
+                     "  auto_derive; [ side_split; first [ (eapply Rlt_le_trans; [ exact HT | right; unfold barT, barS; field ])\n"
+                     "    | (apply Rgt_not_eq; eapply Rlt_le_trans; [ exact (Rmult_lt_0_compat _ _ (Rmult_lt_0_compat _ _ Rlt_0_2 Rlt_0_2) HT) | right; unfold barT, barS; field ]) ] | ].\n"
+                     "  canon_ln_u (barT %s %s) ltac:(unfold barT, barS). fold_rpower (barT %s %s).\n"
+                     "  subst rhs. unfold barS%s. lazy beta delta [nthR nth] iota zeta. bar u0 u1 u2 w0 w1 w2 q Hq HT.\nQed."
+                     % (A, k, l, allx, A, allx, A, A, k, xs(l, "x"), X[l], A, allx, hidx(k, l), A, allx, hidx(k, l), A, allx, A, allx, A))
+    # the domain is open in every direction
+    for l in range(6):
+        o.append("Lemma barS%s_near_%d %s : 0 < barT %s %s -> locally %s (fun x => 0 < barT %s %s).\n"
+                 "Proof. intro HT. apply (locally_gt_ex (fun x => barT %s %s)); [ unfold barT, barS; auto_derive; exact I | exact HT ]. Qed."
+                 % (A, l, allx, A, allx, X[l], A, xs(l, "x"), A, xs(l, "x")))
+    # theorems
+    o.append("Lemma barS%s_value_ok : barS%s_value_stmt.\nProof. unfold barS%s_value_stmt. intros. apply barS%s_val_eq; assumption. Qed." % (A, A, A, A))
+    o.append("Lemma barS%s_noq_ok : barS%s_noq_stmt.\nProof.\n  unfold barS%s_noq_stmt. intros %s q Hq HT.\n"
+             "  apply (is_derive_near _ (fun _ => barPhi %s (1 / %s) %s)).\n"
+             "  - apply (locally_gt_ex (fun x => x) q 0) in Hq; [ | auto_derive; exact I ]. revert Hq; apply filter_imp; intros x Hx.\n"
+             "    symmetry; apply barS%s_val_eq; assumption.\n  - auto_derive; [ exact I | ring ].\nQed." % (A, A, A, allx, A, A, allx, A))
+    g = ["Lemma barS%s_grad_ok : barS%s_grad_stmt.\nProof.\n  unfold barS%s_grad_stmt. intros %s q Hq HT. cbv [all_upto]; side_split;\n"
+         "  lazy beta delta [upd firstn skipn app nthR nth Nat.add] iota." % (A, A, A, allx)]
+    for l in range(6):
+        g.append("  - apply (is_derive_near _ (fun x => barPhi %s (1 / %s) %s)).\n"
+                 "    + generalize (barS%s_near_%d %s HT); apply filter_imp; intros x Hx. symmetry. exact (barS%s_val_eq %s q Hq Hx).\n"
+                 "    + match goal with |- is_derive _ _ ?d => replace d with (barG %s (1 / %s) %d %s) by (symmetry; exact (barS%s_grad_eq_%d %s q Hq HT)) end.\n"
+                 "      exact (barS%s_specgrad_%d %s HT)." % (A, A, xs(l, "x"), A, l, allx, A, xs(l, "x"), A, A, l, allx, A, l, allx, A, l, allx))
+    g.append("Qed.")
+    o.append("\n".join(g))
+    h = ["Lemma barS%s_hess_ok : barS%s_hess_stmt.\nProof.\n  unfold barS%s_hess_stmt. intros %s q Hq HT. cbv [all_upto]; side_split;\n"
+         "  lazy beta delta [upd firstn skipn app nthR nth Nat.add Nat.mul bar_hidx bar_sidx Nat.ltb Nat.leb Nat.eqb Nat.sub Nat.min Nat.max] iota." % (A, A, A, allx)]
+    for k in range(6):
+        for l in range(6):
+            h.append("  - apply (is_derive_near _ (fun x => barG %s (1 / %s) %d %s)).\n"
+                     "    + generalize (barS%s_near_%d %s HT); apply filter_imp; intros x Hx. symmetry. exact (barS%s_grad_eq_%d %s q Hq Hx).\n"
+                     "    + exact (barS%s_spechess_%d_%d %s q Hq HT)." % (A, A, k, xs(l, "x"), A, l, allx, A, k, xs(l, "x"), A, k, l, allx))
+    h.append("Qed.")
+    o.append("\n".join(h))
+    o.append("Lemma barS%s_hosford_ok : barS%s_hosford_stmt.\nProof.\n  unfold barS%s_hosford_stmt. intros u0 u1 u2 q Hq HT.\n"
+             "  assert (E : barT %s u0 u1 u2 u0 u1 u2 = hosT %s u0 u1 u2) by (unfold barT, barS, hosT, hosS; field).\n"
+             "  rewrite barS%s_val_eq; [ | exact Hq | rewrite E; exact HT ]. unfold barPhi, hosPsi. rewrite E. reflexivity.\nQed." % (A, A, A, A, A, A))
+    open(os.path.join(COQ, "C22Eig_barS%s.v" % A), "w").write("\n".join(o) + "\n")
+    q = ["(* C22 -- Barlat 2004, a = %s: Phi(vp1, vp2, seq) and its derivatives with respect to the eigenvalues: property theorems *)" % A,
+         "From Coq Require Import Reals List Lra.\nFrom Coquelicot Require Import Coquelicot.\nFrom VLib Require Import RealExtra.",
+         "From C22 Require Import C22InvSpec C22EigSpec C22eig_gen C22EigStatements C22Eig_barS%s.\nImport ListNotations.\nLocal Open Scope R_scope.\n" % A]
+    for w in ("value", "noq", "grad", "hess", "hosford"):
+        q.append("Theorem C22_barlat%s_%s : barS%s_%s_stmt.\nProof. exact barS%s_%s_ok. Qed.\nPrint Assumptions C22_barlat%s_%s." % (A, w, A, w, A, w, A, w))
+    open(os.path.join(COQ, "Properties_C22eig_barS%s.v" % A), "w").write("\n".join(q) + "\n")
 
 
-for _a in (2, 6, 8):
-    barid(_a)
+for _a in (6,):
+    barS(_a)
